@@ -195,6 +195,47 @@ def run_reused(arg):
     return bad, 0
 
 
+def run_after_history(arg):
+    """start from a non-initial state: process_iter() has cached every process, then one pid is recycled by a
+    younger process (possibly with another parent); the tree functions must describe the NEW table"""
+    parents, ranks, seed, victim, new_ppid = arg
+    import psutil
+    w = build_world(parents, ranks, seed)
+    use_world(w)
+    w.logging = False
+    n = len(parents)
+    list(psutil.process_iter())
+    w.vanish(victim)
+    w.tick(5000)
+    w.spawn(victim, ppid=new_ppid, comm=b"recycled", start=max(p.start for p in w.procs.values()) + 300)
+    parents2 = [w.procs[p].ppid for p in range(1, n + 1)]
+    starts = sorted({w.procs[p].start for p in range(1, n + 1)})
+    ranks2 = [starts.index(w.procs[p].start) for p in range(1, n + 1)]
+    ref = reference(parents2, ranks2)
+    bad = []
+    for p in range(1, n + 1):
+        pr = psutil.Process(p)
+        r = ref[p]
+        got = outcome(lambda: sorted(c.pid for c in pr.children()))
+        if got != ("ok", r["direct"]):
+            bad.append(("after-recycling:children", "pid %d children() -> %r expected %r" % (p, got, r["direct"])))
+        got = outcome(pr.parent)
+        okp = {r["parent"]} | ({None} if r["lowest"] else set())
+        if got[0] != "ok" or (None if got[1] is None else got[1].pid) not in okp:
+            bad.append(("after-recycling:parent", "pid %d parent() -> %r expected one of %r" % (p, got if got[0] != "ok" else getattr(got[1], "pid", None), sorted(okp, key=str))))
+        elif got[1] is not None and not got[1].is_running():
+            bad.append(("after-recycling:parent-is-a-dead-object", "pid %d parent() returned an object for pid %d whose is_running() is False"
+                        % (p, got[1].pid)))
+        if not r["cyclic"]:
+            got = outcome(lambda: [c.pid for c in pr.parents()])
+            if got != ("ok", r["chain"]):
+                bad.append(("after-recycling:parents", "pid %d parents() -> %r expected %r" % (p, got, r["chain"])))
+        got = outcome(lambda: [c.pid for c in pr.children(recursive=True)])
+        if got[0] != "ok" or not (set(r["must"]) <= set(got[1]) <= set(r["may"])) or len(set(got[1])) != len(got[1]):
+            bad.append(("after-recycling:children-recursive", "pid %d -> %r MUST %r MAY %r" % (p, got, r["must"], r["may"])))
+    return bad, 0
+
+
 def run(ctx):
     n = 4 if ctx.thorough else 3
     worlds = []
@@ -225,7 +266,17 @@ def run(ctx):
     for wd, (bad, _) in zip(reused, res2):
         for cause, msg in bad:
             viols.append({"cause": cause, "msg": msg, "case": {"parents": wd[0], "ranks": wd[1], "recycled": wd[3]}})
-    cov = {"evaluations": (len(worlds) * n * 4) + len(reused) * 4, "distinct_nontrivial": len(worlds) + len(reused) - 1,
+    hist = []
+    for parents in itertools.product(range(0, 4), repeat=3):
+        for victim in (1, 2, 3):
+            for new_ppid in (0, 1, 2, 3):
+                if new_ppid == victim:
+                    continue
+                hist.append((list(parents), [0, 1, 2], ctx.seed, victim, new_ppid))
+    for wd, (bad, _) in zip(hist, ctx.pmap(run_after_history, hist)):
+        for cause, msg in bad:
+            viols.append({"cause": cause, "msg": msg, "case": {"parents": wd[0], "ranks": wd[1], "after_history": [wd[3], wd[4]]}})
+    cov = {"after_history_worlds": len(hist), "evaluations": (len(worlds) * n * 4) + len(reused) * 4 + len(hist) * 12, "distinct_nontrivial": len(worlds) + len(reused) - 1,
            "rule": "one world = one assignment of parent pids x one weak ordering of start times for N=%d processes; in each world every "
                    "process calls children(), children(recursive=True), parent(), parents() (evaluations = calls); distinct_nontrivial = "
                    "distinct worlds except the one where nobody has a listed parent" % n,
@@ -239,6 +290,9 @@ def run(ctx):
 
 
 def replay(ctx, case):
+    if "after_history" in case:
+        bad, _ = run_after_history((case["parents"], case["ranks"], ctx.seed, case["after_history"][0], case["after_history"][1]))
+        return {"violated": bool(bad), "viols": bad}
     if "recycled" in case:
         bad, _ = run_reused((case["parents"], case["ranks"], ctx.seed, case["recycled"]))
     else:
